@@ -304,6 +304,9 @@ func ekind(err error) string {
 	return "EOther"
 }
 
+// the output names of the node under test (LSTM reads how many results are asked for)
+var nodeOutputs []string
+
 // run one operator the way Model.applyOp does, under recover; the observed outcome as Gallina
 func observe(op string, attrs []attr, ins []tensor.Tensor) (obs string) {
 	defer func() {
@@ -319,7 +322,7 @@ func observe(op string, attrs []attr, ins []tensor.Tensor) (obs string) {
 	for _, a := range attrs {
 		ap = append(ap, a.proto())
 	}
-	if err := o.Init(&onnx.NodeProto{Attribute: ap}); err != nil {
+	if err := o.Init(&onnx.NodeProto{Attribute: ap, Output: nodeOutputs}); err != nil {
 		return "(OErr " + ekind(err) + ")"
 	}
 	v, err := o.ValidateInputs(ins)
@@ -421,7 +424,7 @@ func observeReused(op string, attrs []attr, first, second []tensor.Tensor) (obs 
 	for _, a := range attrs {
 		ap = append(ap, a.proto())
 	}
-	if err := o.Init(&onnx.NodeProto{Attribute: ap}); err != nil {
+	if err := o.Init(&onnx.NodeProto{Attribute: ap, Output: nodeOutputs}); err != nil {
 		return "(OErr " + ekind(err) + ")"
 	}
 	func() {
